@@ -3,6 +3,8 @@
 //! usage: harness <property> [--seed N] [--tier quick|thorough] [--shard i/n] [--out FILE] [extra…]
 mod common;
 mod c13;
+mod c01;
+mod pkggen;
 
 use common::*;
 use std::io::{BufWriter, Write};
@@ -17,6 +19,7 @@ pub fn eval_request(req: &str) -> String {
     let r = guarded(std::panic::AssertUnwindSafe(|| {
         None // one line per property module
             .or_else(|| c13::eval(op, a))
+            .or_else(|| c01::eval(op, a))
     }));
     match r {
         Ok(Some(s)) => s,
@@ -68,6 +71,7 @@ fn main() {
             }
         }
         "C13" => c13::gen(&mut ctx),
+        "C01" => c01::gen(&mut ctx),
         _ => { eprintln!("unknown property {}", prop); std::process::exit(2); }
     }
     ctx.out.flush().unwrap();
